@@ -19,6 +19,7 @@ cp /tmp/seed-$id.diff /verif/seeded/$id/patch.diff
 cp "$wt"/tests/$demo.rs /verif/seeded/$id/demo.rs 2>/dev/null
 cp "$wt"/seed/meta.json /verif/seeded/$id/meta.agent.json 2>/dev/null
 cd /repo && git status --porcelain | grep -v '^??' | grep . && { echo "repo not clean"; exit 2; }
+rm -rf /verif/build/evidence.keep; cp -r /verif/evidence /verif/build/evidence.keep
 git -C /repo apply /verif/seeded/$id/patch.diff || { echo "patch does not apply to /repo"; exit 2; }
 for p in "$@"; do
   ( cd /verif && timeout 1800 python3 tools/check.py "$p" 2>&1 | grep -E "VIOLATION|^C[0-9]+ " | cut -c1-200 | tail -3 )
@@ -26,3 +27,5 @@ for p in "$@"; do
 import json; r=json.load(open('/verif/evidence/replay/$p-1.json')); print('   first replay:', r.get('what','')[:300])"
 done
 git -C /repo checkout -- .
+# evidence written while a seeded change was applied is not evidence about the tree: put the clean files back
+rm -rf /verif/evidence; mv /verif/build/evidence.keep /verif/evidence
